@@ -153,3 +153,14 @@ pub fn relevant_alphabet(pat: &[u32], alpha: &[u32], cap: usize) -> Vec<u32> {
     v.truncate(cap);
     v
 }
+
+/// The small-pattern grammar spells its second literal as `b`; multi-byte variants of the slice re-spell it.
+pub fn respell_b(pat: &[u32], to: u32) -> Vec<u32> {
+    let mut out = Vec::with_capacity(pat.len());
+    let mut prev = 0x20;
+    for &c in pat {
+        out.push(if c == 0x62 && prev != 0x5C { to } else { c });
+        prev = c;
+    }
+    out
+}
